@@ -1008,6 +1008,12 @@ def body_hyperbolic(case, ctx):
             if len(w) > 6:
                 continue
             img = np.asarray(rc[wstr(w)], dtype=float)
+            if cond_of(img) > 1e3:
+                # (the rounded image of a long word of large boosts preserves F only up to
+                # eps * cond^2, which form_adjoint's own validity check refuses: the map is
+                # asked about images that are isometries of F to working accuracy)
+                ctx.label("form_adjoint:ill-conditioned-word-skipped")
+                continue
             sc_ = max(1.0, O.norm2(img)) ** 2 * cond_of(img) * cond_of(Cf) ** 2
             ctx.close("compose(form_adjoint(F))[w] = form_adjoint(F)(rho(w))",
                       np.asarray(ad[wstr(w)], dtype=float), np.asarray(hf(img), dtype=float),
